@@ -5519,8 +5519,25 @@ class LinProg:
         return table
 
     def show(self):
+        """
+        Returns a pandas.DataFrame that summarizes the information on the
+        optimization problem.
+        """
 
-        return self.showlc()
+        table = self.showlc()
+        obj_row = pd.DataFrame(self.obj.reshape((1, self.obj.size)),
+                               columns=table.columns[:-2], index=['Obj'])
+        table = pd.concat([obj_row, table], axis=0)
+
+        ub = pd.DataFrame(self.ub.reshape((1, self.ub.size)),
+                          columns=table.columns[:-2], index=['UB'])
+        lb = pd.DataFrame(self.lb.reshape((1, self.lb.size)),
+                          columns=table.columns[:-2], index=['LB'])
+        vtype = pd.DataFrame(self.vtype.reshape((1, self.vtype.size)),
+                             columns=table.columns[:-2], index=['Type'])
+        table = pd.concat([table, ub, lb, vtype], axis=0)
+
+        return table.fillna('-')
 
     def solve(self, solver):
 
